@@ -84,6 +84,18 @@ class PrettyPrinter:
 
         return False
 
+    def __is_case_insensitive_string(self, value: str) -> bool:
+        """
+        A quoted string followed by the i flag e.g. "abc"i or 'abc'i, as opposed
+        to free text that merely ends in 'i such as Napol'i
+        """
+        return (
+            len(value) >= 3
+            and value[-1] == "i"
+            and value[0] in ("'", '"')
+            and value[-2] == value[0]
+        )
+
     def __check_pair_value(self, key: str, value: Any) -> None:
         """
         The values of METADATA-style blocks and of CONFIG are strings or numbers
@@ -390,7 +402,7 @@ class PrettyPrinter:
                 return value.upper()
 
             if self.is_expression(option):
-                if value.endswith("'i") or value.endswith('"i'):
+                if self.__is_case_insensitive_string(value):
                     return value
 
         if self.quoter.in_slashes(value):
@@ -432,8 +444,8 @@ class PrettyPrinter:
             # check schemas for expressions and handle accordingly
             if self.is_expression(attr_props) and self.quoter.in_slashes(value):
                 return value
-            if self.is_expression(attr_props) and (
-                value.endswith("'i") or value.endswith('"i')
+            if self.is_expression(attr_props) and self.__is_case_insensitive_string(
+                value
             ):
                 # for case insensitive regex
                 return value
